@@ -15,8 +15,12 @@ HEADER = b"\x00\x01\x00\x01\x00\x02\x00"
 POS_DELTAS = list(range(-7, 2))  # block start relative to a buffer boundary: header straddles it in every possible way
 
 
-def block_bytes(idx, key, long_, vlen=16):
+def block_bytes(idx, key, long_, vlen=16, ua=False):
     s = [tlv.short(1, 8 if idx % 2 else 0), tlv.short(2, 1000 + idx), tlv.integer(3, 60000 + idx), tlv.ptr(26, b"GET", vlen)]
+    if ua:
+        # a 256-byte User-Agent filled to the last byte, directly followed by a setting whose index has a non-zero high byte:
+        # only the documented 128-byte case may run on into the following bytes
+        s += [tlv.setting(9, 3, b"U" * 256), tlv.setting(6969, 1, b"\x00\x07")]
     b = tlv.block(s, patch_size=4096 if long_ else 0)
     if not long_:
         b += b"\x00\x00"
@@ -68,7 +72,8 @@ def build(scn, variant, seed):
     inner = [i for i, b in enumerate(blocks) if b["where"] == "inner"]
     outer = [i for i, b in enumerate(blocks) if b["where"] == "outer"]
     long_ = variant["long"]
-    bb = {i: block_bytes(i + 1, blocks[i]["key"], long_ and not (container == "xorenc" and blocks[i]["where"] == "outer")) for i in range(len(blocks))}
+    uaset = {i for i in range(len(blocks)) if variant.get("ua") and not (container == "xorenc" and blocks[i]["where"] == "outer")}
+    bb = {i: block_bytes(i + 1, blocks[i]["key"], long_ and not (container == "xorenc" and blocks[i]["where"] == "outer"), ua=i in uaset) for i in range(len(blocks))}
     pc = variant["pos"]
 
     def first_offset(lo, hi, n0):
@@ -101,7 +106,7 @@ def build(scn, variant, seed):
             for i, o in zip(outer, offs):
                 data[o : o + len(bb[i])] = bb[i]
                 planted.append(("outer", blocks[i]["key"], o, i))
-        return dict(data=bytes(data), planted=planted, decoded=None)
+        return dict(data=bytes(data), planted=planted, decoded=None, ua=uaset)
     # PE based containers
     S = 0x5000 if not long_ else 0x9000
     img, info = refpe.build_pe(arch=rng.choice(["x86", "x64"]), n_sections=2, section_size=S, export_section=0)
@@ -115,6 +120,7 @@ def build(scn, variant, seed):
         # the block that ends the stream is "ended by end of data": no terminator, its last byte is the last byte of the stream
         # ... and its length runs over all residues modulo 4 (the decoded view of a stage is produced dword-wise from the read position)
         bb[vis[-1]] = block_bytes(vis[-1] + 1, blocks[vis[-1]]["key"], False, vlen=13 + rng.randrange(4))[:-2]
+        uaset.discard(vis[-1])
     lens = [len(bb[i]) for i in vis]
     if vis:
         fo = first_offset(lo, hi, lens[0])
@@ -139,7 +145,7 @@ def build(scn, variant, seed):
             img[o : o + len(bb[i])] = bb[i]
             planted.append(("outer" if container == "pe" else "inner", blocks[i]["key"], o, i))
     if container == "pe":
-        return dict(data=bytes(img), planted=planted, decoded=None)
+        return dict(data=bytes(img), planted=planted, decoded=None, ua=uaset)
     # XorEncoded stage: outer blocks (short) live in the stub, before the end-of-stub marker
     stub = bytearray(filler(rng, rng.choice([20, 60]), "run69" if fill == "run69" else "zeros").replace(b"\x00", b"\x90"))
     for i in outer:
@@ -152,7 +158,7 @@ def build(scn, variant, seed):
         return None
     nonce = bytes(rng.randrange(1, 255) for _ in range(4))
     data = xorenc.stage(bytes(stub), nonce, bytes(img))
-    return dict(data=data, planted=planted, decoded=bytes(img), nonce_offset=len(stub))
+    return dict(data=data, planted=planted, decoded=bytes(img), nonce_offset=len(stub), ua=uaset)
 
 
 def precondition(b):
@@ -213,7 +219,7 @@ def one(args):
                 os.rmdir(d)
     finally:
         io.DEFAULT_BUFFER_SIZE = old
-    res = {"skipped": False, "len": len(b["data"]), "planted": [(v, k, o) for v, k, o, _ in b["planted"]]}
+    res = {"skipped": False, "len": len(b["data"]), "planted": [(v, k, o) for v, k, o, _ in b["planted"]], "ua_blocks": sorted(b["ua"])}
     if o[0] != "ok":
         res["outcome"] = o[0] if o[0] in ("ValueError", "timeout") else o[1]
         return res
@@ -223,6 +229,7 @@ def one(args):
     res["port"] = rs.get("SETTING_PORT")
     res["sleep"] = rs.get("SETTING_SLEEPTIME")
     res["n_settings"] = len(c.settings_tuple)
+    res["ua_len"] = len(rs.get("SETTING_USERAGENT", b""))
     res["xorkey"] = L(c.xorkey) if c.xorkey is not None else None
     res["xorencoded"] = c.xorencoded
     res["guardrails"] = c.guardrails is not None
@@ -263,6 +270,7 @@ CHECK_DEADLOCK FALSE
             "buf": [8192, 8192, 4096, 16][(i // 3) % 4] if not slow else 8192,
             "filler": fills[(i // 5) % 4],
             "long": (i % 7 == 3),
+            "ua": (i % 5 == 2),
             "second_boundary": (i % 4 == 1),
             "default_as_none": (i % 2 == 0),
         }
@@ -300,7 +308,8 @@ CHECK_DEADLOCK FALSE
                 else:
                     b = row["blocks"][idx - 1]
                     ok = (res["xorkey"] == [b["key"]] and res["xorencoded"] == (b["where"] == "inner") and res["sleep"] == 60000 + idx
-                          and res["n_settings"] == 4 and not res["guardrails"])
+                          and res["n_settings"] == (6 if idx - 1 in res["ua_blocks"] else 4) and res["ua_len"] == (256 if idx - 1 in res["ua_blocks"] else 0)
+                          and not res["guardrails"])
                     if not ok:
                         ctx.violation("extracted block's settings / key / xorencoded flag differ from the planted block", {**m, "failed": "attributes"}, brief)
         if row["blocks"]:
